@@ -16,7 +16,7 @@ LEVEL = "fault_enumeration"
 RULE = (
     "configurations: clean_up in {None, True, False} x allow_incomplete x "
     "wait (only on complete crops) x farmer in {none, Runner, Harvester, "
-    "Sampler} x injected failure stage in {none, incomplete crop, unreadable "
+    "Harvester without a data name (memory only), Sampler} x injected failure stage in {none, incomplete crop, unreadable "
     "result (truncated / garbage file), over-long result with a falsy surplus "
     "entry, wrong output description (var_names "
     "count, missing var_dims), harvester merge conflict with existing data, "
@@ -38,15 +38,15 @@ ASSUMPTIONS = [
     "wait=True is only combined with complete crops (blocking is liveness)",
 ]
 
-FARMERS = ["none", "runner", "harvester", "sampler"]
+FARMERS = ["none", "runner", "harvester", "harvester_mem", "sampler"]
 FAILURES = {
     "none": FARMERS,
     "incomplete": FARMERS,
     "unreadable": FARMERS,
     "overlong": FARMERS,
-    "wrong_names": ["runner", "harvester"],
-    "missing_dims": ["runner", "harvester"],
-    "conflict": ["harvester"],
+    "wrong_names": ["runner", "harvester", "harvester_mem"],
+    "missing_dims": ["runner", "harvester", "harvester_mem"],
+    "conflict": ["harvester", "harvester_mem"],
     "save_dir_missing": ["harvester", "sampler"],
     "save_injected": ["harvester", "sampler"],
 }
@@ -75,6 +75,10 @@ def run_case(case):
     import xarray as xr
     import xyzpy.gen.farming as farming
     farmer_kind, failure = case["farmer"], case["failure"]
+    # a harvester without a data name keeps its dataset in memory only
+    mem_only = farmer_kind == "harvester_mem"
+    if mem_only:
+        farmer_kind = "harvester"
     clean_up, allow_inc, wait = case["clean_up"], case["allow_incomplete"], \
         case["wait"]
     A = list(range(case["na"]))
@@ -100,13 +104,21 @@ def run_case(case):
         if farmer_kind != "none":
             runner = x.Runner(fn, bad_names, **bad)
             farmer = runner
-            if farmer_kind == "harvester":
+            if mem_only:
+                pre_ds = None
+                if failure == "conflict":
+                    r_old = x.Runner(labelled.make_fn(dict(spec, epoch=1)),
+                                     names, **good)
+                    pre_ds = r_old.run_combos({"a": A[:1], "b": Bv},
+                                              verbosity=0)
+                farmer = x.Harvester(runner, data_name=None, full_ds=pre_ds)
+            elif farmer_kind == "harvester":
                 farmer = x.Harvester(runner, data_name=data_name)
             elif farmer_kind == "sampler":
                 farmer = x.Sampler(runner, data_name=data_name,
                                    default_combos={"a": A, "b": Bv})
         # pre-existing conflicting data
-        if failure == "conflict":
+        if failure == "conflict" and not mem_only:
             spec_old = dict(spec, epoch=1)
             r_old = x.Runner(labelled.make_fn(spec_old), names, **good)
             x.Harvester(r_old, data_name=data_name).harvest_combos(
@@ -178,11 +190,13 @@ def run_case(case):
                 return
             events.append("rmtree")
             if farmer_kind == "harvester":
-                ok = os.path.exists(data_name)
+                ok = mem_only or os.path.exists(data_name)
                 if ok:
-                    # the file must already hold the NEW data, by label
+                    # the file (the in-memory dataset of a harvester without
+                    # a data name) must already hold the NEW data, by label
                     try:
                         labelled.check_dataset(
+                            farmer._full_ds if mem_only else
                             x.load_ds(data_name), spec=spec,
                             fn_args=["a", "b"], coords={"a": A, "b": Bv},
                             requested=hook_requested[0], fn_kwargs_extra={},
@@ -287,7 +301,8 @@ def run_case(case):
                 var_coords=var_coords, explicit_names=True, tag="reaped")
             if farmer_kind == "harvester":
                 with under_test("load harvester file"):
-                    on_disk = x.load_ds(data_name)
+                    on_disk = farmer.full_ds if mem_only else \
+                        x.load_ds(data_name)
                 labelled.check_dataset(
                     on_disk, spec=spec, fn_args=["a", "b"],
                     coords={"a": A, "b": Bv}, requested=requested(),
@@ -326,7 +341,7 @@ def run_case(case):
                 require(models.deep_eq(full, want), "later-full-reap-wrong",
                         "full reap after partial differs from direct run")
     return {"nontrivial": failure != "none",
-            "classes": [f"farmer={farmer_kind}", f"failure={failure}",
+            "classes": [f"farmer={case['farmer']}", f"failure={failure}",
                         f"clean_up={clean_up}",
                         f"allow_incomplete={allow_inc}", f"wait={wait}",
                         "retried" if expect_fail else "first-reap-ok"]}
